@@ -788,6 +788,18 @@ func (h *handler) scenarioScript(ci *connInfo, cb string) {
 		} else if cb == "traffic" {
 			h.doCall(ci, "next", -1, nil, false)
 		}
+	case "readfrom-after-spill":
+		if cb == "traffic" {
+			h.doCall(ci, "next", -1, nil, false)
+			switch ci.traffic {
+			case 2:
+				h.doCall(ci, "write", 0, big(150000), false) // what the socket does not take goes to the ring part
+				h.doCall(ci, "write", 0, big(50000), false)  // ring part above the cap: a list node
+			case 3:
+				h.doCall(ci, "readfrom", 0, bytes.Repeat([]byte("#"), 5000), false)
+				h.doCall(ci, "flush", 0, nil, false)
+			}
+		}
 	case "async-flood":
 		if cb == "traffic" && ci.traffic == 1 {
 			h.doCall(ci, "next", -1, nil, false)
